@@ -35,7 +35,9 @@ MANIFEST = dict(
           "attributes: sorted keys, written text, multi-valued split), visible text, special strings (same_elements, "
           "same_attributes, same_text, same_specials, wsRule_only_whitespace, wsRule_idem, txt_chunking). SECOND ROUND TRIP: the "
           "normal form is idempotent for every forest that is DoctypeStable (explicit decidable predicate), every formatter and "
-          "every configuration satisfying ConfigOK — attributes for all attribute lists (normalise_idem, normAttrs_idem, "
+          "every configuration satisfying ConfigOK, and for no other forest: complete characterisation normalise_idem_iff "
+          "(normalise_not_idem via the exact growth count second_normalisation_growth) — attributes for all attribute lists "
+          "(normalise_idem, normAttrs_idem, "
           "live_config_ok, second_roundtrip, second_roundtrip_fixpoint(_iff), representable_normal_form, registry_cdata_agree, "
           "parse_render_idempotent); without DoctypeStable it is false by a decided "
           "witness (doctype_text_not_fixpoint = known finding). Tie: differential runs on parsed and API-built/edited trees of both "
@@ -50,7 +52,7 @@ MANIFEST = dict(
           "comment/declaration/PI tokenisation, CDATA-content mode); character data and attribute values are read back through "
           "C09's reader models in the Lean theorems. Representable is conservative (see Props docstring); it is preserved by the "
           "normal form (representable_normal_form), so parse_render_idempotent has no hypothesis about the intermediate tree. "
-          "DoctypeStable is sufficient for idempotence; the doctype newline makes the unrestricted statement "
+          "DoctypeStable is necessary and sufficient for idempotence; the doctype newline makes the unrestricted statement "
           "false (known finding). XML flavour is built by hand (no lxml) and re-parsed with html.parser; the XML declaration "
           "BeautifulSoup.decode prepends and charset substitution in <meta> are C08's; pretty-printing is C14's. html5 is rendered "
           "and compared but is outside the round-trip quantifier (its void form <br> is not modelled in emitR)."),
